@@ -78,7 +78,9 @@ class PickupManager:
         """
         manager = cls(optic)
         for pickup_data in data:
-            manager.add(**pickup_data)
+            # restore the pickup without applying it: the saved prescription
+            # already is the state of the lens
+            manager.pickups.append(Pickup.from_dict(optic, pickup_data))
         return manager
 
 
